@@ -148,6 +148,7 @@ structure St where
   jDead : Bool := false
   jBars : Bool := false
   jBatch : Bool := false
+  jDel : Bool := false                    -- a DeleteGroup message occurred: pending sets were dropped by design
   -- real task
   tKind : String := ""
   tDims : List String := []
@@ -238,6 +239,13 @@ def judgeLine (st : St) (l : String) : Except Verdict St := do
     let (s', out, ok) := Union.message st.uRename st.un src msg
     let st := { st with uArr := (src, Union.renamed st.uRename msg) :: st.uArr, uRaw := s!"{src} {kind} {t} {id}" :: st.uRaw }
     judgeUnion st l obs s' out ok false
+  | ["u", "del", src, id] =>
+    -- a DeleteGroupMessage is not a timeMessage: UnionNode.Delete forwards it at once, nothing is buffered
+    let some _ := src.toNat? | throw (.badop l)
+    let mdl := [s!"{id}:0:%", uRenderState st.un]
+    let st := addBr st "u-delete-forwarded"
+    if obs == ["panic"] || obs == ["err"] then throw (.specfail "union-total" s!"{l}: the union node failed ({obs})")
+    pure (if obs != mdl then noteMM st s!"{l}: model {mdl} observed {obs}" else st)
   | ["u", "fin"] =>
     let (s', out, ok) := Union.finish st.un
     judgeUnion st l obs s' out ok true
@@ -245,7 +253,7 @@ def judgeLine (st : St) (l : String) : Except Verdict St := do
   | "join" :: "new" :: rest =>
     let some cfg := parseCfg rest | throw (.badop l)
     if obs != ["ok"] then throw (.mismatch s!"join new: observed {obs}")
-    pure { st with kind := "join", jcfg := cfg, jcfgText := " ".intercalate rest, jn := JNode.init, jArr := [], jSteps := [], jObs := [], jRaw := [], jDead := false,
+    pure { st with kind := "join", jcfg := cfg, jcfgText := " ".intercalate rest, jn := JNode.init, jArr := [], jSteps := [], jObs := [], jRaw := [], jDead := false, jDel := false,
                    jBatch := (kvGet (kvOf rest) "edge") == some "batch" }
   | "j" :: "pt" :: src :: t :: rest =>
     let some src := src.toNat? | throw (.badop l)
@@ -279,6 +287,13 @@ def judgeLine (st : St) (l : String) : Except Verdict St := do
     let st := addBr st "barrier"
     let (nd, sets, status) := st.jn.barrier st.jcfg src grp t
     judgeJoin st l obs nd sets status [s!"B;{t};{esc grp}"] false
+  | "j" :: "del" :: src :: rest =>
+    let some src := src.toNat? | throw (.badop l)
+    let some grp := (kvGet (kvOf rest) "grp").bind unesc | throw (.badop l)
+    if src ≥ st.jcfg.parents then throw (.badop l)
+    let st := { addBr st (if (JNode.glookup grp st.jn.groups).any (fun g => !g.sets.isEmpty) then "delete-drops-pending-sets" else "delete-idle-group") with
+                jDel := true, jRaw := (src, " ".intercalate ("del" :: rest)) :: st.jRaw }
+    judgeJoin st l obs (st.jn.delete grp) [] .ok [s!"D;{esc grp}"] false
   | ["j", "fin"] =>
     let (gs, sets, status) := JNode.finish st.jn.groups
     judgeJoin st l obs { groups := gs } sets status [] true
@@ -458,7 +473,7 @@ where
     let steps := st.jSteps.reverse
     let arrivals := st.jArr.reverse
     let ordered := decide (Spec.joinOrdered st.jcfg steps)
-    if fin && ordered && (!st.jBatch || decide (Spec.batchPointsOrdered st.jcfg arrivals)) then
+    if fin && ordered && !st.jDel && (!st.jBatch || decide (Spec.batchPointsOrdered st.jcfg arrivals)) then
       let want := sortStrings (if st.jBatch then (Spec.joinBatchOutput st.jcfg arrivals).map renderBOut
                                else (Spec.joinOutput st.jcfg arrivals).map renderOut)
       let got := sortStrings obsAll
@@ -495,7 +510,7 @@ where
     if fin then
       st := addBr st (if sets.isEmpty then "finish-nothing-buffered" else "finish-flushes")
       let r : RunRec := { cfg := st.jcfgText, seqs := seqsOf st.jcfg.parents st.jRaw, out := sortStrings obsAll }
-      if ordered then
+      if ordered && !st.jDel then
         match crossCheck st r with
         | some d => throw (.specfail "join-interleaving-independent" d)
         | none => pure ()
